@@ -4477,7 +4477,7 @@ class FST:
                     for p in path.split('.')] if path else []
 
         for p in path:
-            if (next := p.get_default(self.a)) is False:
+            if not isinstance(next := p.get_default(self.a), AST):  # field or index does not exist or is not a node, e.g. optional field which is now None
                 return self if last_valid else False
 
             self = next.f
